@@ -2,8 +2,8 @@ from common import LEAN_TB
 
 CHECK = {
     "title": "Nothing is written outside the designated roots",
-    "modules": ["Apko.Proofs.C18"],
-    "suites": [("confine", 1500, 60000)],
+    "modules": ["Apko.Proofs.C18", "Apko.Proofs.Lemmas.ConfinePath"],
+    "suites": [("confine", 2500, 60000)],
     "fact_prefixes": ["rwosfs.go", "common.go", "cache.go", "implementation.go", "index.go", "const.go"],
     "hashes": {},
     "level": "proof",
